@@ -2,6 +2,7 @@ import FqModel.Proto
 import FqModel.JqEnv
 import FqModel.Gen.Overrides
 import FqModel.JsonStr
+import FqModel.TryWrap
 /-!
   Driver for C07, run `facts` (harness c07 -facts): the harness derives the override table a second time —
   embedded file systems of the running binary in their real load order, the gojq PARSER, "is a builtin" decided
@@ -22,6 +23,12 @@ import FqModel.JsonStr
                                          DIVERGE if the model table read off that encoder's AST (Gen.Encoder) predicts
                                          something else, PROPFAIL if fq's line differs from gojq's
     escpairs TAB ok n | …                all ordered pairs of ~150 units: same text in both encoders, compositional
+    wrap <skeleton of PROG> <PROG> TAB <skeleton of the re-parsed rewrite>;inner=same|changed;catch=ok|other
+                                         fq's own `_eval_query_rewrite({catch_query: …})` applied to PROG, its output text
+                                         parsed again by the reference parser (skeletons: A, P(x), T(x), T(x,y)).
+                                         DIVERGE if the model (TryWrap: print (wrap PROG H), parsed, parentheses erased)
+                                         gives another skeleton; PROPFAIL if the re-parsed text is not
+                                         `try PROG catch H` up to parentheses (the user's program was changed)
 
   The differential cases of the other run are decided by the harness itself (`!OK` / `!PROPFAIL` lines).
 -/
@@ -85,6 +92,26 @@ def stepE (st : St) (op obs : String) : St × String :=
     else (st, corr)
   | ["escpairs"] =>
     if obs.startsWith "ok " then (st, "OK") else (st, s!"PROPFAIL {obs}")
+  | "wrap" :: sk :: _ =>
+    match FqModel.TryWrap.readSkeleton sk, obs.splitOn ";" with
+    | some orig, [implSk, inner, catch_] =>
+      match FqModel.TryWrap.readSkeleton implSk with
+      | none => (st, "BADOP skeleton of the rewrite")
+      | some impl =>
+        open FqModel.TryWrap in
+        let h : Tm := .atom 1
+        let model := match parseAll (print (wrap orig h)) with
+          | some m => show_ (erase m)
+          | none => "unparsable"
+        let implE := show_ (erase impl)
+        let want := show_ (erase (Tm.tryc orig h))
+        let corr := if model == implE then "" else s!"DIVERGE model={model}"
+        if inner != "inner=same" || catch_ != "catch=ok" || implE != want then
+          (st, s!"PROPFAIL the CLI wrap changes the user's program: re-parsed rewrite is {implE} ({inner}, {catch_}), wanted {want}"
+            ++ (if corr == "" then "" else " ;" ++ corr))
+        else (st, if corr == "" then "OK" else corr)
+    | none, _ => (st, "BADOP skeleton")
+    | _, _ => (st, s!"PROPFAIL the rewritten program cannot be read back: {obs}")
   | _ => (st, "")
 
 def step (seen : Nat) (op obs : String) : Nat × String :=
